@@ -119,6 +119,9 @@ pub struct Oracle {
     cut_mid_row: bool,
     /// ... and THIS step wrote at that cursor without clearing the row first
     cut_damage_now: bool,
+    /// ... in an earlier step, and every screen check since then ended in blank rows (a lost or
+    /// overwritten BLANK row cannot be seen until a non-blank row follows it)
+    cut_damage_unverified: bool,
     /// D22 (C04): bottom alignment, a frame with padding rows was painted, a visibly finished member was dropped
     d22_padded: bool,
     d22_kept_candidate: bool,
@@ -179,6 +182,7 @@ impl Oracle {
             text_without_bar: false,
             cut_mid_row: false,
             cut_damage_now: false,
+            cut_damage_unverified: false,
             d22_padded: false,
             d22_kept_candidate: false,
             kept_out_of_reach: false,
@@ -825,6 +829,7 @@ impl Oracle {
                     }
                     TOp::Str(t) | TOp::Line(t) if !t.is_empty() => {
                         self.cut_damage_now = true;
+                        self.cut_damage_unverified = true;
                         break;
                     }
                     TOp::Line(_) => {
@@ -902,6 +907,14 @@ impl Oracle {
             }
         }
         let res = self.check_screen(op, matches!(op, Op::MClear));
+        if res.is_none() && self.cut_damage_unverified && !self.cut_damage_now {
+            // the check was conclusive if the last written row is not blank
+            let (r, c) = self.vt.cursor();
+            let written = r + if c > 0 { 1 } else { 0 };
+            if self.vt.rows().len() >= written {
+                self.cut_damage_unverified = false;
+            }
+        }
         if is_mp_paint && !matches!(op, Op::MClear | Op::Drop(_)) {
             let _ = self.reap_after_paint();
         }
@@ -910,7 +923,7 @@ impl Oracle {
 
     /// the narrow, history-determined classes of the recorded open findings; `default` otherwise
     fn classify(&self, default: &'static str) -> &'static str {
-        if self.cut_damage_now {
+        if self.cut_damage_now || self.cut_damage_unverified {
             // open finding D14
             "height-cut-leaves-cursor-mid-row"
         } else if self.bottom_ever && self.d22_padded && self.d22_kept_candidate && !default.starts_with("log-") {
